@@ -44,7 +44,7 @@ BOUNDS = {
     'copydir': 'copy_dir / move_dir of 3 source trees x 3 source directory names (ASCII, multi-byte, below a multi-byte parent) (incl. names repeating the source directory name, empty and nested directories, binary and dot files) x same/other filesystem x existing destination: structure, bytes and returned count; plus a PhysicalFS source (native move_dir) to the same instance, another PhysicalFS instance and a MemoryFS: nothing may be written into the source filesystem at the destination path',
     'faults': '12 scenarios (incl. re-creating a removed file / directory through an overlay with a faulty upper layer) (create_dir_all, remove_dir_all, copy/move_file, copy/move_dir, walk_dir, read_to_string, altroot, overlay with faulty upper / faulty lower layer) x every position k of a failing underlying call: never Ok with a partial or wrong effect, never a panic, lower layers untouched',
     'embedded': 'EmbeddedFS over the fixture folder replay/embed (nested, dotted, multi-byte, prefix-sharing names, an empty file) against PhysicalFS on the same folder: for every embedded file and implied directory, the root, and for each an extension, a prefix, a sibling and a path below it (65 paths): existence, type, length, bytes, listings, walk; every mutating call is refused as not-supported; nothing changes',
-    'times': 'set_creation/modification/access_time: 3 fields x 3 fields (ordered pairs) x 7 instants (epoch, sub-second, before the epoch, far future) on a file, a directory and the root, on memory, altroot, overlay (upper-layer entries), physical and altroot over physical; plus append sessions (creation time kept, also when set while the handle is open)',
+    'times': 'set_creation/modification/access_time: 3 fields x 3 fields (ordered pairs) x 7 instants (epoch, sub-second, before the epoch, far future) on a file, a directory and the root, on memory, altroot, overlay (upper-layer entries; also with layers that are sub-directories of their filesystems: nothing outside the layer changes), physical and altroot over physical; plus append sessions (creation time kept, also when set while the handle is open)',
     'walk.vanish': 'entries removed while a walk is under way (2 and 4 files; memory, altroot, overlay): one not-found error item per vanished entry, naming it, then the end',
     'adiff:handles': '5 scenarios of write handles that overlap (idle handle dropped last, repeated flush after a foreign write, two append handles) or outlive their file (idle / with data) on memory, altroot, overlay: the async tree and bytes end up like the sync ones',
     'adiff:transfer': 'copy_file / move_file from a memory / altroot / physical source to another in-memory filesystem, with and without an existing destination: async against sync',
